@@ -163,6 +163,7 @@ package hessian
 //@   readonlyuse (*bytes.Buffer).Write, io.Writer.Write, github.com/vogo/logger.Logger.Debugf, builtin:len, builtin:cap
 //@   recoverpoints (*Decoder).ReadObject
 //@   decodeentries ToObject, (*Decoder).Decode, (*Decoder).ReadFrom, (*Decoder).ReadObject, (*goHessian).Read, (*goHessian).ReadFrom, (*goHessian).ToObject
+//@   pointerfields _refKey.addr
 //@   fieldwriters objectPool.cached newPool
 //@   fieldwriters objectPool.factory newPool
 
